@@ -1,11 +1,29 @@
+// gosx: forking symbolic executor for Go SSA, specialised to go-domdistiller.
+//
+//	gosx -pkg internal/filter/docfilter -harness h.go -fn HarnessX [-param k=v]... [-j 16] -out report.json
+//
+// The package under test is loaded from $GOSX_REPO (default /repo) as it is on
+// disk now, with the harness file(s) and the harness API overlaid; nothing is
+// written to the repository.
 package main
 
 import (
+	"bufio"
+	"bytes"
+	"crypto/sha1"
+	"encoding/hex"
+	"encoding/json"
 	"flag"
 	"fmt"
+	"go/token"
 	"os"
+	"os/exec"
 	"path/filepath"
+	"runtime/pprof"
+	"sort"
+	"strconv"
 	"strings"
+	"sync"
 	"time"
 
 	"golang.org/x/tools/go/packages"
@@ -16,46 +34,166 @@ import (
 
 const mod = "github.com/markusmobius/go-domdistiller"
 
+type multi []string
+
+func (m *multi) String() string     { return strings.Join(*m, ",") }
+func (m *multi) Set(s string) error { *m = append(*m, s); return nil }
+
+type workUnit struct {
+	Prefixes []string `json:"prefixes"`
+	Budget   int      `json:"budget"`
+}
+
 func main() {
-	pkgPath := flag.String("pkg", "", "package dir relative to /repo, e.g. internal/filter/docfilter")
-	harnessFile := flag.String("harness", "", "harness source file to overlay into that package")
+	pkgPath := flag.String("pkg", "", "package dir relative to the repo, e.g. internal/filter/docfilter ('.' for the root package)")
+	harnessFiles := flag.String("harness", "", "harness source file(s), comma separated, overlaid into that package")
 	fn := flag.String("fn", "", "harness function")
-	apiFile := flag.String("api", "/root/spike/harness/api.go", "api source")
-	maxPaths := flag.Int("maxpaths", 100000, "")
-	maxSteps := flag.Int("maxsteps", 200000, "")
-	solverBin := flag.String("solver", "z3-new", "")
-	mut := flag.String("mutate", "", "repoFile=replacementFile")
+	apiDir := flag.String("api", "/verif/harness/api", "directory with the harness API sources")
+	maxPaths := flag.Int("maxpaths", 2000000, "global path budget")
+	maxSteps := flag.Int("maxsteps", 300000, "per-path basic-block budget (unwinding bound)")
+	solverBin := flag.String("solver", "z3-new", "solver binary (SMT-LIB2 over stdin)")
+	jobs := flag.Int("j", 1, "worker processes")
+	worker := flag.Bool("worker", false, "worker mode (internal)")
+	concrete := flag.String("concrete", "", "run once, concretely, on this input table (JSON)")
+	canary := flag.Bool("canary", false, "replace every assertion by false (vacuity check)")
+	out := flag.String("out", "", "write the JSON report here (default stdout)")
+	unit := flag.Int("unit", 300, "paths per work unit handed to a worker")
+	timeout := flag.Duration("timeout", 0, "wall-clock limit for the exploration (0 = none); exceeding it is inconclusive")
+	var params, overlays multi
+	flag.Var(&params, "param", "name=value (repeatable)")
+	flag.Var(&overlays, "overlay", "repoRelPath=file (repeatable): replace a repository file in the analysis")
+	cpuprof := flag.String("cpuprofile", "", "write a CPU profile")
 	flag.Parse()
-	t0 := time.Now()
-	api, _ := os.ReadFile(*apiFile)
-	h, err := os.ReadFile(*harnessFile)
-	if err != nil {
-		panic(err)
+	if *cpuprof != "" {
+		f, _ := os.Create(*cpuprof)
+		pprof.StartCPUProfile(f)
+		defer pprof.StopCPUProfile()
 	}
-	cfg := &packages.Config{Mode: packages.LoadAllSyntax, Dir: "/repo", Overlay: map[string][]byte{
-		"/repo/internal/zzverif/api.go":                         api,
-		filepath.Join("/repo", *pkgPath, "zz_verif_harness.go"): h,
-	}}
-	if *mut != "" {
-		kv := strings.SplitN(*mut, "=", 2)
+	repo := os.Getenv("GOSX_REPO")
+	if repo == "" {
+		repo = "/repo"
+	}
+	t0 := time.Now()
+
+	pm := map[string]int{}
+	for _, p := range params {
+		kv := strings.SplitN(p, "=", 2)
+		if len(kv) != 2 {
+			fatal("bad -param " + p)
+		}
+		n, err := strconv.Atoi(kv[1])
+		if err != nil {
+			fatal("bad -param " + p)
+		}
+		pm[kv[0]] = n
+	}
+
+	overlay := map[string][]byte{}
+	apis, _ := filepath.Glob(filepath.Join(*apiDir, "*.go"))
+	if *harnessFiles == "" && len(overlays) == 0 {
+		// the driver has materialised harness and API in a scratch copy of the
+		// repository: no overlay (an overlay makes go/packages type-check the
+		// whole standard library from source)
+		apis = nil
+		overlay = nil
+	}
+	for _, f := range apis {
+		b, err := os.ReadFile(f)
+		if err != nil {
+			fatal(err.Error())
+		}
+		overlay[filepath.Join(repo, "internal/zzverif", filepath.Base(f))] = b
+	}
+	for _, hf := range strings.Split(*harnessFiles, ",") {
+		if hf == "" {
+			continue
+		}
+		b, err := os.ReadFile(hf)
+		if err != nil {
+			fatal(err.Error())
+		}
+		overlay[filepath.Join(repo, *pkgPath, "zz_verif_"+filepath.Base(hf))] = b
+	}
+	for _, o := range overlays {
+		kv := strings.SplitN(o, "=", 2)
 		b, err := os.ReadFile(kv[1])
 		if err != nil {
-			panic(err)
+			fatal(err.Error())
 		}
-		cfg.Overlay["/repo/"+kv[0]] = b
+		overlay[filepath.Join(repo, kv[0])] = b
 	}
-	pkgs, err := packages.Load(cfg, "./"+*pkgPath)
+	// The interpreted universe is loaded from source (roots); everything else
+	// comes from export data (types only) and must be modelled by an intrinsic.
+	cfg := &packages.Config{Mode: packages.LoadSyntax, Dir: repo, Overlay: overlay,
+		Env: append(os.Environ(), "GOFLAGS=-mod=mod", "GOPROXY=off", "GOSUMDB=off", "GOTOOLCHAIN=local")}
+	cfg.Fset = token.NewFileSet()
+	pkgs, err := packages.Load(cfg, "./"+*pkgPath, "./...", "./internal/zzverif", "github.com/go-shiori/dom")
 	if err != nil {
-		panic(err)
+		fatal("load: " + err.Error())
 	}
-	if packages.PrintErrors(pkgs) > 0 {
-		os.Exit(2)
+	if n := packages.PrintErrors(pkgs); n > 0 {
+		fatal(fmt.Sprintf("%d package errors (harness or repository does not compile)", n))
 	}
-	prog, spkgs := ssautil.AllPackages(pkgs, ssa.InstantiateGenerics|ssa.BareInits)
-	prog.Build()
+	if os.Getenv("GOSX_PROF") != "" {
+		fmt.Fprintf(os.Stderr, "main load %.2fs\n", time.Since(t0).Seconds())
+		packages.Visit(pkgs, nil, func(p *packages.Package) {
+			if len(p.Syntax) > 0 {
+				n := 0
+				for _, f := range p.Syntax {
+					n += int(f.End() - f.Pos())
+				}
+				if n > 30000 {
+					fmt.Fprintln(os.Stderr, "  SRC", p.ID, len(p.Syntax), n)
+				}
+			}
+		})
+	}
 	interpreted := func(p string) bool {
-		return strings.HasPrefix(p, mod) || p == "github.com/go-shiori/dom" || p == "golang.org/x/net/html" || p == "net/url" || p == "path"
+		return strings.HasPrefix(p, mod) || p == "github.com/go-shiori/dom" || p == "net/url" || p == "path"
 	}
+	prog, spkgs0 := ssautil.Packages(pkgs, ssa.InstantiateGenerics|ssa.BareInits)
+	var spkgs []*ssa.Package
+	var rootPkg *packages.Package
+	wantPath := mod
+	if *pkgPath != "." && *pkgPath != "" {
+		wantPath = mod + "/" + *pkgPath
+	}
+	for i, p := range spkgs0 {
+		if p == nil {
+			continue
+		}
+		if !strings.HasSuffix(pkgs[i].ID, ".test") && !strings.Contains(pkgs[i].ID, " [") {
+			p.Build()
+		}
+		if pkgs[i].PkgPath == wantPath && rootPkg == nil {
+			rootPkg = pkgs[i]
+			spkgs = append(spkgs, p)
+		}
+	}
+	if rootPkg == nil {
+		fatal("package " + wantPath + " not loaded")
+	}
+	pkgs = []*packages.Package{rootPkg}
+	// shadow program: net/url and path, interpreted from source
+	cfg2 := &packages.Config{Mode: packages.LoadSyntax, Dir: repo, Fset: cfg.Fset, Env: cfg.Env}
+	shPkgs, err := packages.Load(cfg2, "net/url", "path")
+	if err != nil || packages.PrintErrors(shPkgs) > 0 {
+		fatal("cannot load net/url, path from source")
+	}
+	shProg, shSSA := ssautil.Packages(shPkgs, ssa.InstantiateGenerics|ssa.BareInits)
+	var shadowInit []*ssa.Package
+	for i, p := range shSSA {
+		if p != nil {
+			p.Build()
+			interp.ShadowPkgs[shPkgs[i].PkgPath] = true
+			if shPkgs[i].PkgPath == "path" {
+				shadowInit = append([]*ssa.Package{p}, shadowInit...)
+			} else {
+				shadowInit = append(shadowInit, p)
+			}
+		}
+	}
+	interp.Shadow = shProg
 	// init order: dependency order over module packages only
 	var order []*ssa.Package
 	seen := map[string]bool{}
@@ -65,40 +203,307 @@ func main() {
 			return
 		}
 		seen[p.PkgPath] = true
-		for _, imp := range p.Imports {
-			visit(imp)
+		var imps []string
+		for k := range p.Imports {
+			imps = append(imps, k)
+		}
+		sort.Strings(imps)
+		for _, k := range imps {
+			visit(p.Imports[k])
 		}
 		if strings.HasPrefix(p.PkgPath, mod) {
 			order = append(order, prog.Package(p.Types))
 		}
 	}
+	order = append(order, shadowInit...)
 	visit(pkgs[0])
-	fmt.Printf("loaded+built in %v; init pkgs %d\n", time.Since(t0), len(order))
 	hf := spkgs[0].Func(*fn)
 	if hf == nil {
-		panic("no such function " + *fn)
+		fatal("no such harness function " + *fn)
 	}
-	solver := interp.NewSolver(*solverBin, "-in", "-t:5000")
+	loadS := time.Since(t0).Seconds()
+
+	newSolver := func() *interp.Solver {
+		s := interp.NewSolver(*solverBin, "-in")
+		if os.Getenv("SMTLOG") != "" {
+			f, _ := os.Create(os.Getenv("SMTLOG"))
+			s.Log = f
+		}
+		return s
+	}
 	if os.Getenv("DECIDELOG") != "" {
 		f, _ := os.Create(os.Getenv("DECIDELOG"))
 		interp.DebugDecide = f
 	}
-	if os.Getenv("SMTLOG") != "" {
-		f, _ := os.Create(os.Getenv("SMTLOG"))
-		solver.Log = f
-	}
-	rep := interp.Explore(prog, hf, interp.Options{Interp: interpreted, InitPkgs: order, MaxSteps: *maxSteps, MaxPaths: *maxPaths}, solver)
-	fmt.Printf("paths=%d infeasible=%d decisions=%d queries=%d solver=%v wall=%v\n", rep.Paths, rep.Infeasible, rep.Decisions, rep.Queries, rep.SolverTime, rep.Wall)
-	fmt.Printf("covered=%v\nfuncs=%v\n", rep.Covered, rep.Funcs)
-	for i, u := range rep.Unsupported {
-		if i < 5 {
-			fmt.Println("UNSUPPORTED:", u)
+	base := interp.Options{Interp: interpreted, InitPkgs: order, MaxSteps: *maxSteps, Params: pm, Canary: *canary}
+
+	if *worker {
+		solver := newSolver()
+		defer solver.Close()
+		rd := bufio.NewReaderSize(os.Stdin, 1<<20)
+		w := bufio.NewWriter(os.Stdout)
+		for {
+			line, err := rd.ReadBytes('\n')
+			if len(line) == 0 && err != nil {
+				return
+			}
+			var u workUnit
+			if json.Unmarshal(line, &u) != nil {
+				return
+			}
+			o := base
+			o.Start, o.MaxPaths = u.Prefixes, u.Budget
+			rep := interp.Explore(prog, hf, o, solver)
+			b, _ := json.Marshal(rep)
+			w.Write(b)
+			w.WriteByte('\n')
+			w.Flush()
 		}
 	}
-	for i, v := range rep.Violations {
-		if i < 5 {
-			fmt.Printf("VIOLATION: %s\n  model: %s\n", v.Msg, v.Model)
+
+	var total *interp.Report
+	if *concrete != "" {
+		b, err := os.ReadFile(*concrete)
+		if err != nil {
+			fatal(err.Error())
+		}
+		in := &interp.Input{}
+		if err := json.Unmarshal(b, in); err != nil {
+			fatal(err.Error())
+		}
+		for k, v := range in.Params {
+			if _, ok := pm[k]; !ok {
+				pm[k] = v
+			}
+		}
+		o := base
+		o.Concrete, o.MaxPaths = in, 1
+		solver := newSolver()
+		total = interp.Explore(prog, hf, o, solver)
+		solver.Close()
+	} else if *jobs <= 1 {
+		o := base
+		o.MaxPaths = *maxPaths
+		solver := newSolver()
+		total = interp.Explore(prog, hf, o, solver)
+		solver.Close()
+	} else {
+		total = coordinate(prog, hf, base, newSolver, *jobs, *maxPaths, *unit, *timeout)
+	}
+	if len(total.Pending) > 0 {
+		total.Unsupported = append(total.Unsupported, fmt.Sprintf("path budget exhausted (%d paths), %d prefixes pending", total.Paths, len(total.Pending)))
+		total.Pending = total.Pending[:0]
+	}
+
+	// hash of the SSA of every executed function of the module (the encoding)
+	type fh struct{ Name, Hash string }
+	var hashes []fh
+	all := ssautil.AllFunctions(prog)
+	byName := map[string]*ssa.Function{}
+	for f := range all {
+		byName[f.String()] = f
+	}
+	enc := sha1.New()
+	for _, name := range interp.FuncList(total.Funcs) {
+		f := byName[name]
+		if f == nil {
+			continue
+		}
+		var buf bytes.Buffer
+		f.WriteTo(&buf)
+		h := sha1.Sum(buf.Bytes())
+		enc.Write(h[:])
+		if strings.Contains(name, mod) && !strings.Contains(name, "zzverif") && !strings.Contains(name, "Harness") {
+			hashes = append(hashes, fh{strings.ReplaceAll(name, mod+"/", ""), hex.EncodeToString(h[:4])})
 		}
 	}
-	fmt.Printf("violations=%d unsupported=%d\n", len(rep.Violations), len(rep.Unsupported))
+	outRep := map[string]interface{}{
+		"harness": *fn, "pkg": *pkgPath, "params": pm, "report": total, "load_s": loadS,
+		"total_wall_s": time.Since(t0).Seconds(), "functions": hashes, "encoding_hash": hex.EncodeToString(enc.Sum(nil)),
+		"solver": *solverBin, "jobs": *jobs, "max_steps": *maxSteps,
+	}
+	b, _ := json.MarshalIndent(outRep, "", " ")
+	if *out != "" {
+		if err := os.WriteFile(*out, b, 0o644); err != nil {
+			fatal(err.Error())
+		}
+	} else {
+		os.Stdout.Write(b)
+	}
+	fmt.Fprintf(os.Stderr, "gosx %s: paths=%d infeasible=%d decisions=%d queries=%d violations=%d unsupported=%d solver=%.1fs wall=%.1fs\n",
+		*fn, total.Paths, total.Infeasible, total.Decisions, total.Queries, len(total.Violations), len(total.Unsupported), total.SolverS, time.Since(t0).Seconds())
+	if os.Getenv("GOSX_PROF") != "" {
+		fmt.Fprintf(os.Stderr, "init time total %v\n", interp.InitTime)
+	}
+	for i, u := range total.Unsupported {
+		if i < 5 {
+			fmt.Fprintln(os.Stderr, "  UNSUPPORTED:", u)
+		}
+	}
+	for i, v := range total.Violations {
+		if i < 8 {
+			fmt.Fprintf(os.Stderr, "  CANDIDATE[%s]: %s @ %s\n", v.Kind, v.Msg, v.Where)
+		}
+	}
+}
+
+func fatal(msg string) {
+	fmt.Fprintln(os.Stderr, "gosx: "+msg)
+	os.Exit(2)
+}
+
+func merge(dst, src *interp.Report) {
+	dst.Paths += src.Paths
+	dst.Infeasible += src.Infeasible
+	dst.Decisions += src.Decisions
+	dst.Forks += src.Forks
+	dst.Queries += src.Queries
+	dst.Obligations += src.Obligations
+	dst.Discharged += src.Discharged
+	dst.SolverS += src.SolverS
+	if src.MaxStepsSeen > dst.MaxStepsSeen {
+		dst.MaxStepsSeen = src.MaxStepsSeen
+	}
+	for k, v := range src.VCount {
+		if dst.VCount == nil {
+			dst.VCount = map[string]int{}
+		}
+		dst.VCount[k] += v
+	}
+	seen := map[string]int{}
+	for _, v := range dst.Violations {
+		seen[v.Kind+":"+v.Msg]++
+	}
+	for _, v := range src.Violations {
+		if seen[v.Kind+":"+v.Msg] < 3 {
+			seen[v.Kind+":"+v.Msg]++
+			dst.Violations = append(dst.Violations, v)
+		}
+	}
+	dst.Unsupported = append(dst.Unsupported, src.Unsupported...)
+	for k, v := range src.Covered {
+		if dst.Covered == nil {
+			dst.Covered = map[string]int{}
+		}
+		dst.Covered[k] += v
+	}
+	for k, v := range src.Funcs {
+		if dst.Funcs == nil {
+			dst.Funcs = map[string]int{}
+		}
+		dst.Funcs[k] += v
+	}
+	if len(dst.Samples) < 8 {
+		dst.Samples = append(dst.Samples, src.Samples...)
+	}
+}
+
+// coordinate expands the decision tree breadth-first in-process, then hands
+// open prefixes to worker processes (one solver each); a worker explores its
+// subtrees up to a path budget and returns what is left, which is re-queued.
+func coordinate(prog *ssa.Program, hf *ssa.Function, base interp.Options, newSolver func() *interp.Solver, jobs, maxPaths, unit int, timeout time.Duration) *interp.Report {
+	t0 := time.Now()
+	o := base
+	o.BFS, o.StopAtWork, o.MaxPaths = true, jobs*6, jobs*40
+	solver := newSolver()
+	total := interp.Explore(prog, hf, o, solver)
+	solver.Close()
+	if len(total.Pending) == 0 || len(total.Unsupported) > 0 {
+		total.WallS = time.Since(t0).Seconds()
+		return total
+	}
+	queue := total.Pending
+	total.Pending = nil
+	var mu sync.Mutex
+	cond := sync.NewCond(&mu)
+	active := 0
+	stop := false
+	var wg sync.WaitGroup
+	args := append([]string{}, os.Args[1:]...)
+	args = append(args, "-worker")
+	for w := 0; w < jobs; w++ {
+		wg.Add(1)
+		go func() {
+			defer wg.Done()
+			cmd := exec.Command(os.Args[0], args...)
+			cmd.Stderr = os.Stderr
+			in, _ := cmd.StdinPipe()
+			outp, _ := cmd.StdoutPipe()
+			if err := cmd.Start(); err != nil {
+				mu.Lock()
+				total.Unsupported = append(total.Unsupported, "cannot start worker: "+err.Error())
+				stop = true
+				cond.Broadcast()
+				mu.Unlock()
+				return
+			}
+			rd := bufio.NewReaderSize(outp, 1<<20)
+			defer func() { in.Close(); cmd.Process.Kill(); cmd.Wait() }()
+			for {
+				mu.Lock()
+				for len(queue) == 0 && active > 0 && !stop {
+					cond.Wait()
+				}
+				if stop || (len(queue) == 0 && active == 0) {
+					cond.Broadcast()
+					mu.Unlock()
+					return
+				}
+				// take a share of the queue: deepest prefixes last => take from the end
+				n := 1
+				if len(queue) > jobs*4 {
+					n = len(queue) / (jobs * 4)
+					if n > 8 {
+						n = 8
+					}
+				}
+				// shallowest prefixes (largest subtrees) first
+				sort.SliceStable(queue, func(a, b int) bool { return len(queue[a]) < len(queue[b]) })
+				u := workUnit{Prefixes: append([]string(nil), queue[:n]...), Budget: unit}
+				queue = queue[n:]
+				active++
+				mu.Unlock()
+				b, _ := json.Marshal(u)
+				tu := time.Now()
+				in.Write(append(b, '\n'))
+				line, err := rd.ReadBytes('\n')
+				if os.Getenv("GOSX_PROF") != "" {
+					fmt.Fprintf(os.Stderr, "unit %d prefixes took %.2fs, %d bytes\n", len(u.Prefixes), time.Since(tu).Seconds(), len(line))
+				}
+				mu.Lock()
+				active--
+				if err != nil && len(line) == 0 {
+					total.Unsupported = append(total.Unsupported, "worker died")
+					stop = true
+					cond.Broadcast()
+					mu.Unlock()
+					return
+				}
+				var rep interp.Report
+				if e := json.Unmarshal(line, &rep); e != nil {
+					total.Unsupported = append(total.Unsupported, "bad worker output: "+e.Error())
+					stop = true
+				} else {
+					merge(total, &rep)
+					queue = append(queue, rep.Pending...)
+					if len(rep.Unsupported) > 0 {
+						stop = true
+					}
+					if total.Paths >= maxPaths {
+						total.Pending = append(total.Pending, queue...)
+						stop = true
+					}
+					if timeout > 0 && time.Since(t0) > timeout {
+						total.Unsupported = append(total.Unsupported, fmt.Sprintf("wall-clock limit %v reached with %d prefixes pending", timeout, len(queue)))
+						stop = true
+					}
+				}
+				cond.Broadcast()
+				mu.Unlock()
+			}
+		}()
+	}
+	wg.Wait()
+	total.WallS = time.Since(t0).Seconds()
+	return total
 }
